@@ -273,7 +273,43 @@ def err_variant(b, s):
     return '/'.join(vs) or '?'
 
 
+def stream_start(F, R):
+    """A streamed PUBLISH header is written only when the stream handle is still alive, and that is decided
+    at the write: wherever a sink function signals "go" to the StreamingPayload handle after writing the
+    header, the write is confined to the `tx.is_canceled() == false` edge with no suspension point between
+    the test and the write (a handle dropped while the sender was parked would otherwise leave a header whose
+    payload never follows)."""
+    n = 0
+    for ver in ('v3', 'v5'):
+        for b in F.find(r'^%s::sink::PublishBuilder::stream_\w+(::\{closure#0\})?$' % ver):
+            gos = [(bi, t) for bi, t in b.calls_to(r'pool::Sender::<T>::send$|Sender::<T>::send$') if 'Sender<()>' in (b.local_ty(op_place(t['args'][0])['l']) if t['args'] and op_place(t['args'][0]) else '') or True]
+            gos = [(bi, t) for bi, t in gos if '()' in (b.local_ty(op_place(t['args'][1])['l']) if len(t['args']) > 1 and op_place(t['args'][1]) else '()')]
+            writes = [(bi, t) for bi, t in b.calls_to(r'^%s::shared::MqttShared::(wait_publish_response|wait_publish_response_no_block|encode_publish)$' % ver)]
+            if not gos or not writes:
+                continue
+            n += 1
+            name = re.sub(r'::\{closure#0\}$', '', b.path)
+            tests = []
+            for bi, t in b.calls_to(r'::is_canceled$'):
+                r = call_bool_branch(b, bi)
+                if r and r[0] != 'discr':
+                    tests.append((bi, r[0], r[1], r[2]))
+            for wb, wt in writes:
+                ok = False
+                why = 'no is_canceled() test of the stream handle guards the header write'
+                for cb, sw, tt, ft in tests:
+                    if edge_dominates(b, sw, ft, wb):
+                        ys = [y for y in b.yields() if y in b.reachable(cb) and wb in b.reachable(y)]
+                        if ys:
+                            why = 'the handler can be suspended between the is_canceled() test and the header write'
+                        else:
+                            ok = True
+                R.ob('C08.stream-accounting', '%s|header-written-only-while-the-stream-handle-is-alive' % name, ok, why, b.loc(wb))
+    R.floor('C08.stream-accounting', 'streamed sends that signal the payload handle', n, 2)
+
+
 def stream_accounting(F, R):
+    stream_start(F, R)
     for ver in ('v3', 'v5'):
         b = F.one(r'^%s::shared::MqttShared::encode_publish_payload$' % ver)
         encs = [bi for bi, t in b.calls_to(IO_ENCODE)]
